@@ -6,12 +6,14 @@ codecs satisfying the laws, all header settings, all payloads and all write scri
 `Member.writeBlock` mirrors compressor.writeBlock WITH the repair fixes/C08-1-bsize-search.diff
 (search for "BC\2\0" from the extra field on); on the unrepaired tree the conformance theorem is false
 (`orig_search_witness` pins the counterexample the check also finds on the implementation).
-Determinism across wc is NOT a theorem here: the sequential model has no wc; that clause is owned by
-C12 (`lts_output_deterministic`) and is checked here by correspondence only (byte-identical outputs).
+Determinism across wc: the sequential model has no wc; `output_independent_of_wc_and_schedule` composes it
+with the writer LTS of C12/C09 (every wc, every interleaving) through the script abstraction
+`Hts.Model.WriterCompose.absScript`; the correspondence check still compares byte-identical outputs.
 -/
 import Hts.Lemmas.BgzfWriter
 import Hts.Lemmas.BgzfStream
 import Hts.Props.C01
+import Hts.Lemmas.WriterCompose
 namespace Hts.Props.C08
 open Hts.Model Hts.Model.Member Hts.Spec
 open Hts.Model.BgzfWriter (BlockSize MaxBlockSize Op hasClose accepted)
@@ -189,6 +191,45 @@ script: no block is ever refused (the role of `compressBound(BlockSize) ≤ MaxB
 theorem default_header_clean_close (c : CodecFns) (hb : Bounded c) (wops : List (Op Byte)) (hclose : hasClose wops = true) :
     (output c {} wops).2 = none :=
   default_output_ok c hb wops hclose
+
+/-! ### the bytes do not depend on the writer's concurrency or on the schedule -/
+
+open Hts.Model.WriterCompose in
+/-- For every concrete write script that closes the writer, every header and codec, EVERY writer concurrency
+`wc ≥ 0` and EVERY interleaving of the API goroutine, the emitter and the compressor goroutines (the writer LTS
+of C12/C09, repaired protocol, no I/O faults, compression of a block failing exactly when `writeBlock` refuses
+it): once everything has come to rest, the bytes the underlying writer has received — the delivered blocks in
+delivery order, then the EOF marker if written — are exactly the sequential model's `output` (`closeOutput` of
+the queued blocks: the members of the blocks before the first refused one, and the marker iff none was refused).
+The abstract script handed to the LTS is `absScript wops`: each `Write` completes as many blocks as it does in the
+sequential writer, each `Flush` finds the active block non-empty iff it is so there
+(`WriterCompose.absScript_blocks`). -/
+theorem output_independent_of_wc_and_schedule (wc : Nat) (c : CodecFns) (h : Header) (wops : List (Op Byte))
+    (hclose : hasClose wops = true) (s : WriterLTS.State)
+    (hreach : WriterLTS.Reachable (cfgOf wc c h wops) s) (hidle : WriterLTS.AllIdle s) :
+    deliveredBytes c h (after wops).emitted s = (output c h wops).1 := by
+  rw [compose_output wc c h wops s hreach hidle]
+  simp only [output, closeOutput_eq, hclose, true_and]
+
+open Hts.Model.WriterCompose in
+/-- Hence any two runs of the same script — different `wc`, different schedules — deliver byte-identical output. -/
+theorem output_same_for_any_two_runs (wc₁ wc₂ : Nat) (c : CodecFns) (h : Header) (wops : List (Op Byte))
+    (hclose : hasClose wops = true) (s₁ s₂ : WriterLTS.State)
+    (h₁ : WriterLTS.Reachable (cfgOf wc₁ c h wops) s₁) (i₁ : WriterLTS.AllIdle s₁)
+    (h₂ : WriterLTS.Reachable (cfgOf wc₂ c h wops) s₂) (i₂ : WriterLTS.AllIdle s₂) :
+    deliveredBytes c h (after wops).emitted s₁ = deliveredBytes c h (after wops).emitted s₂ := by
+  rw [output_independent_of_wc_and_schedule wc₁ c h wops hclose s₁ h₁ i₁,
+    output_independent_of_wc_and_schedule wc₂ c h wops hclose s₂ h₂ i₂]
+
+open Hts.Model.WriterCompose in
+/-- A writer that is never closed: at rest, the bytes delivered are the members of the queued blocks (up to the
+first refused one), in order, without marker — for every `wc` and schedule. -/
+theorem unclosed_output_independent_of_wc_and_schedule (wc : Nat) (c : CodecFns) (h : Header) (wops : List (Op Byte))
+    (hclose : hasClose wops = false) (s : WriterLTS.State)
+    (hreach : WriterLTS.Reachable (cfgOf wc c h wops) s) (hidle : WriterLTS.AllIdle s) :
+    deliveredBytes c h (after wops).emitted s = (render c h (after wops).emitted).1 := by
+  rw [compose_output wc c h wops s hreach hidle]
+  simp [hclose]
 
 /-! ### the defect of the unrepaired search, pinned -/
 
